@@ -46,7 +46,7 @@ ASSUMPTIONS = [
     "Effect accessors do not lie; FNode identity is equality inside one environment",
 ]
 SHARD_TIMEOUT = {"quick": 600, "thorough": 3600}
-N = {"quick": 600, "thorough": 12000}
+N = {"quick": 600, "thorough": 36000}
 MAX_LOOKAHEADS_PER_HISTORY = 2
 CONTAINERS = ["inst", "dur", "prob"]
 
